@@ -42,7 +42,7 @@ EXTENDS Integers, Sequences, FiniteSets, TLC
 CONSTANTS KF_IntermediateAKCounts,  \* BOOLEAN: ACTUAL deviation (see above)
           MaxSigners,               \* signer URI multisets of size 0..MaxSigners
           NestedChoices,            \* how many rules of the nested accounts are combined with every root rule
-          WithNegative,             \* BOOLEAN: add the weight -1 (= -1/2) to the flat slice (Eval = Sat only)
+          WithNegative,             \* BOOLEAN: add a slice of threshold rules with a negative weight (no monotonicity claim)
           MaxOps                    \* bound on hist (generation)
 
 VARIABLES sl,      \* slice of the universe (index into Slices)
@@ -73,7 +73,7 @@ TRule(acc, w) == [kind |-> "T", acc |-> acc, w |-> w]
 SRule(sets) == [kind |-> "S", sets |-> sets]
 
 Weights == <<0, 1, 2, 4>>
-WeightsNeg == <<-1, 0, 1, 2, 4>>
+WeightsNeg == <<-1, 1, 2>>
 Accepts == <<1, 2, 4, 6>>
 
 (* all threshold rules over the member list mem, numbered 0 .. |W|^n * |A| - 1 *)
@@ -105,9 +105,9 @@ Env(a1, a2, a3, m) == [A1 |-> a1, A2 |-> a2, A3 |-> a3, M |-> m]
 AnyKey == TRule(2, [k \in KeyNames |-> 2])          \* every key alone satisfies it
 (* rules given to a nested account (members are keys; nesting depth 2) *)
 NestedRules == << TRule(2, [k \in {"K1", "K2"} |-> 1]),          \* K1 and K2 together
+                  NoRule,                                        \* named by the root rule but never created
                   SRule(<< <<"K1">>, <<"K2", "K3">> >>),         \* K1, or K2 with K3
                   TRule(2, [k \in {"K1", "K2"} |-> 2]),          \* K1 or K2
-                  NoRule,                                        \* named by the root rule but never created
                   SRule(<< <<"K1", "K2">> >>),
                   TRule(4, [k \in KeyNames |-> IF k = "K3" THEN 4 ELSE 1]) >>
 NC == IF NestedChoices > Len(NestedRules) THEN Len(NestedRules) ELSE NestedChoices
@@ -134,8 +134,10 @@ MethodUris == << <<"K1">>, <<"K2">>, <<"K3">>,
                  <<"K1", "K2">>,                                \* key as intermediate component
                  <<"A2", "K1", "K2">> >>
 
-FlatEnvs == LET R == AllRules(FlatMembers, IF WithNegative THEN WeightsNeg ELSE Weights) IN
+FlatEnvs == LET R == AllRules(FlatMembers, Weights) IN
   [i \in 1..Len(R) |-> Env(R[i], AnyKey, NoRule, NoRule)]
+(* "arbitrary weights": all threshold rules over the keys with weights from {-1/2, 1/2, 1} *)
+NegEnvs == [c \in 1..NumT(FlatMembers, WeightsNeg) |-> Env(ThresholdRule(FlatMembers, WeightsNeg, c - 1), AnyKey, NoRule, NoRule)]
 NestedEnvs == LET R == AllRules(NestedMembers, Weights) IN
   [i \in 1..(Len(R) * NC) |->
      LET r == ((i - 1) \div NC) + 1
@@ -150,6 +152,7 @@ MethodEnvs == LET R == AllRules(MethodMembers, Weights) IN
 Slices == << [name |-> "flat",   tgt |-> "A1", uris |-> FlatUris,   envs |-> FlatEnvs],
              [name |-> "nested", tgt |-> "A1", uris |-> NestedUris, envs |-> NestedEnvs],
              [name |-> "method", tgt |-> "M",  uris |-> MethodUris, envs |-> MethodEnvs] >>
+          \o (IF WithNegative THEN << [name |-> "negative", tgt |-> "A1", uris |-> FlatUris, envs |-> NegEnvs] >> ELSE << >>)
 
 EnvOf(s, i) == Slices[s].envs[i]
 Paths(s, idx) == [k \in DOMAIN idx |-> Slices[s].uris[idx[k]]]
@@ -226,16 +229,17 @@ ValidateFrom(kf, tree, plist, i, st, isAccount) ==
              ELSE AKSetsValidate(tree, st, nd)
        IN ValidateFrom(kf, tree, plist, i - 1, [st EXCEPT ![nd] = IF checkResult THEN "Success" ELSE "Failed"], isAccount)
 
-Statuses(kf, env, tgt, uris) ==
+(* the statuses after validation and the weight the root's threshold validator summed *)
+Run(kf, env, tgt, uris) ==
   LET tree == BuildPermTree(env, tgt, uris)
       plist == PermTreeList(tree)
-  IN ValidateFrom(kf, tree, plist, Len(plist), [n \in DOMAIN tree |-> "NotVerified"], IsAcct(tgt))
+      st == ValidateFrom(kf, tree, plist, Len(plist), [n \in DOMAIN tree |-> "NotVerified"], IsAcct(tgt))
+  IN [ok |-> st[1] = "Success", sum |-> IF tree[1].acl.kind = "T" THEN WeightSum(tree, st, 1, 1) ELSE 0]
 
 (* IdentifyAccount(tgt, uris) for an account, CheckContractMethodPerm for the method *)
-Eval(kf, env, tgt, uris) == Statuses(kf, env, tgt, uris)[1] = "Success"
+Eval(kf, env, tgt, uris) == Run(kf, env, tgt, uris).ok
 (* the weight the root's threshold validator summed (once-only counting) *)
-EvalRootSum(kf, env, tgt, uris) ==
-  LET tree == BuildPermTree(env, tgt, uris) IN WeightSum(tree, Statuses(kf, env, tgt, uris), 1, 1)
+EvalRootSum(kf, env, tgt, uris) == Run(kf, env, tgt, uris).sum
 
 -----------------------------------------------------------------------------
 (* (2) Sat: the property statement.  P is a SET of paths (who signed, acting for whom).              *)
@@ -301,11 +305,11 @@ Monotone == (\A n \in DOMAIN CurEnv : NonNeg(CurEnv[n])) =>
 Reverse(s) == [i \in DOMAIN s |-> s[Len(s) + 1 - i]]
 (* each signer counts once: repeating every entry changes nothing, the order is irrelevant, and the  *)
 (* weight the root validator adds up is the sum over the DISTINCT members held                       *)
-OnceOnly == /\ Eval(KF_IntermediateAKCounts, CurEnv, Tgt, CurUris \o CurUris) = Eval(KF_IntermediateAKCounts, CurEnv, Tgt, CurUris)
-            /\ Eval(KF_IntermediateAKCounts, CurEnv, Tgt, Reverse(CurUris)) = Eval(KF_IntermediateAKCounts, CurEnv, Tgt, CurUris)
+OnceOnly == LET r == Run(KF_IntermediateAKCounts, CurEnv, Tgt, CurUris) IN
+            /\ Eval(KF_IntermediateAKCounts, CurEnv, Tgt, CurUris \o CurUris) = r.ok
+            /\ Eval(KF_IntermediateAKCounts, CurEnv, Tgt, Reverse(CurUris)) = r.ok
             /\ RuleOf(CurEnv, Tgt).kind = "T" =>
-                 EvalRootSum(KF_IntermediateAKCounts, CurEnv, Tgt, CurUris)
-                   = SatSum(KF_IntermediateAKCounts, CurEnv, RuleOf(CurEnv, Tgt), Addressed(Tgt, CurUris))
+                 r.sum = SatSum(KF_IntermediateAKCounts, CurEnv, RuleOf(CurEnv, Tgt), Addressed(Tgt, CurUris))
 
 (* what the code violates: its algorithm against the IDEAL semantics (MC_Acl_find.cfg) *)
 Soundness == Eval(TRUE, CurEnv, Tgt, CurUris) = Sat(FALSE, CurEnv, Tgt, CurUris)
